@@ -22,6 +22,7 @@ from pathlib import Path
 
 import common
 import impl
+from props import c13walk
 
 from rattr.config.state import enter_file
 from rattr.module_locator import util as U
@@ -655,6 +656,8 @@ def run(tier, seed, build):
             res.count("tree:" + kind)
             res.count("files:" + str(len(files)))
             run_tree(world, files, two, ops, res, mo, {"tree": files, "two_roots": two})
+        # end-to-end stage: which file a relative import is resolved against (every way a file is reached)
+        c13walk.run_stage(world, res, tier, seed, model, py_resolve, fs_first_match, U.is_in_stdlib)
         res.extra["exhaustive"] = True
         res.extra["trees"] = len(work)
     finally:
@@ -666,6 +669,9 @@ def run(tier, seed, build):
         "[interp] the round trip is required only of a file that is the first match of its own dotted name",
         "stdlib classification (isort.place_module) and the stdlib finder are per-case inputs to the model, taken from the real functions; 'json' is imported before any case runs, as it is in the rattr CLI",
         "namespace packages, .pth files, zip imports, symlinks are not represented",
+        "[interp] end-to-end stage: an Import symbol's qualified name is rattr's statement of the module the import resolved to; the statement a symbol derives from is identified by its (project-unique) line number, the file actually read by its marker function; a star import may only deliver names bound at module level of the module Python resolves it to",
+        "[interp] an escaping relative import counts as diagnosed when an error/fatal diagnostic is raised at its line; a valid one whose module exists must raise none and must not end the run in the resolver's AssertionError/ValueError",
+        "end-to-end stage: `from a.b import *` outside an __init__.py (rattr raises ValueError while wording the warning) is kept out of the generated projects except with a one-component module",
     ]
     return res
 
@@ -674,6 +680,12 @@ def replay(path):
     j = json.load(open(path))
     case = j.get("case")
     print(json.dumps(j, indent=1)[:4000])
+    if case and case.get("stage") == "walk":
+        world = World()
+        try:
+            return c13walk.replay_case(world, case, py_resolve, fs_first_match)
+        finally:
+            world.close()
     if not case or "tree" not in case:
         return 0
     world = World()
